@@ -141,7 +141,7 @@ theorem sStep_run (steps : List Step) (s0 sl : Step) (hh : steps.head? = some s0
          let r := sPreds e ns vs s0.preds 0 t.counters
          if !r.1 then ({ sBump ic e t with counters := r.2 }, .none)
          else ({ sBump ic e t with counters := r.2 },
-               if sl.axis == .attribute then sl.test.apply e ns else .bool true)) := by
+               if sl.axis == .attribute then attrResult sl.test e ns else .bool true)) := by
   simp only [sStep, he, hm, Bool.false_eq_true, if_false, hh, hl, sOutside, sBump]
   by_cases h1 : (!ic && e.isStart) = true <;> simp [h1] <;>
     (split <;> try rfl) <;> (split <;> try rfl) <;> (split <;> try rfl) <;> (split <;> rfl)
@@ -160,7 +160,7 @@ def RAll (d : Nat) (g : GState) (t : SState) : Prop :=
 
 /-- what SingleStepStrategy reports for a match -/
 def sVal (sl : Step) (e : Event) (ns : NsMap) : Val :=
-  if sl.axis == .attribute then sl.test.apply e ns else .bool true
+  if sl.axis == .attribute then attrResult sl.test e ns else .bool true
 
 theorem sim_all (gsteps ssteps : List Step) (sx s0 sl : Step) (ic : Bool) (ns : NsMap) (vs : Vars)
     (hg0 : gsteps[0]? = some sx) (hrl : realLen gsteps = 1) (hax : sx.axis = .descendantOrSelf)
@@ -354,9 +354,9 @@ theorem attrApply_none_or_truthy (t : NodeTest) (h : t.attrFlag = true) (e : Eve
     | nil => exact absurd rfl ha
     | cons p r => simp [h1, Val.truthy]
 
-theorem lastVal_attr (pre : List Step) (s : Step) (h : s.axis = .attribute) (hf : s.test.attrFlag = true)
+theorem lastVal_attr (pre : List Step) (s : Step) (h : s.axis = .attribute)
     (e : Event) (ns : NsMap) : lastVal (pre ++ [s]) e ns = sVal s e ns := by
-  simp [lastVal, lastResult, sVal, h, attrApply_none_or_truthy s.test hf e ns]
+  simp [lastVal, lastResult, sVal, h, attrResult]
 
 theorem lastVal_nonattr (pre : List Step) (s : Step) (h : s.axis ≠ .attribute)
     (e : Event) (ns : NsMap) : lastVal (pre ++ [s]) e ns = sVal s e ns := by
@@ -369,9 +369,8 @@ theorem runOne_cons {σ : Type} (step : σ → Event → σ × Val) (s : σ) (e 
 /-- **single_eq_generic.**  For every single location step (any of the five axes, any node
     test, any predicates, positional ones included), both modes, every element tree: the
     SingleStepStrategy matcher reports, event by event, exactly what GenericStrategy reports. -/
-theorem single_eq_generic_run (s : Step) (ic : Bool) (ns : NsMap) (vs : Vars)
-    (tag : QName) (attrs : AttrList) (kids : List Node) (hok : okList kids = true)
-    (hattr : s.axis = .attribute → s.test.attrFlag = true) :
+theorem single_eq_generic_run_full (s : Step) (ic : Bool) (ns : NsMap) (vs : Vars)
+    (tag : QName) (attrs : AttrList) (kids : List Node) (hok : okList kids = true) :
     (runOne (gStep (gSteps [s] ic) ns vs) gInit (Node.elem tag attrs kids).flatten).1
       = (runOne (sStep (sSteps [s]) ic ns vs) ⟨[], 0⟩ (Node.elem tag attrs kids).flatten).1 := by
   have hroot : (Node.elem tag attrs kids).ok = true := by simpa [Node.ok] using hok
@@ -384,7 +383,7 @@ theorem single_eq_generic_run (s : Step) (ic : Bool) (ns : NsMap) (vs : Vars)
       rw [hg, hs]
       exact ((sim_all [dotSlashSlash, s] [dotSlash, s] dotSlashSlash dotSlash s true ns vs rfl
         (by simp [realLen, ha]) rfl rfl rfl rfl rfl (by intro d; simp [sOutside])
-        (fun e => lastVal_attr [dotSlashSlash] s ha (hattr ha) e ns)).flatten _ hroot 0 (Nat.le_refl _) _ _ hinit).1
+        (fun e => lastVal_attr [dotSlashSlash] s ha e ns)).flatten _ hroot 0 (Nat.le_refl _) _ _ hinit).1
     · have hg : gSteps [s] true = [⟨.descendantOrSelf, s.test, s.preds⟩] := by
         have : (s.axis == Axis.attribute) = false := by simpa using ha
         simp [gSteps, stripDot, this]
@@ -422,7 +421,7 @@ theorem single_eq_generic_run (s : Step) (ic : Bool) (ns : NsMap) (vs : Vars)
       exact ((sim_at 0 0 0 [] [dotSlash, s] [dotSlash, s] dotSlash dotSlash s ns vs rfl
         (by simp [realLen, hax]) (by simp [isDescLike, dotSlash])
         rfl rfl rfl rfl (by intro d; simp [sOutside, dotSlash])
-        (fun e => lastVal_attr [dotSlash] s hax (hattr hax) e ns)).flatten _ hroot 0 (Nat.le_refl _) _ _ hi).1
+        (fun e => lastVal_attr [dotSlash] s hax e ns)).flatten _ hroot 0 (Nat.le_refl _) _ _ hi).1
     | child =>
       have hg : gSteps [s] false = [dotSlash, s] := by simp [gSteps, hax]
       have hs : sSteps [s] = [s] := by simp [sSteps, hax]
@@ -457,5 +456,14 @@ theorem single_eq_generic_run (s : Step) (ic : Bool) (ns : NsMap) (vs : Vars)
         (fun e => lastVal_nonattr [dotSlash] s (by simp [hax]) e ns)).flattenList kids hok 1 (Nat.le_refl _) _ _ hi
       rw [hk.1]
       simp [runOne, gStep_end, sStep_end]
+
+/-- the statement as it was before genshi fix 996160a made the hypothesis on the attribute test
+    superfluous (kept for its users) -/
+theorem single_eq_generic_run (s : Step) (ic : Bool) (ns : NsMap) (vs : Vars)
+    (tag : QName) (attrs : AttrList) (kids : List Node) (hok : okList kids = true)
+    (_hattr : s.axis = .attribute → s.test.attrFlag = true) :
+    (runOne (gStep (gSteps [s] ic) ns vs) gInit (Node.elem tag attrs kids).flatten).1
+      = (runOne (sStep (sSteps [s]) ic ns vs) ⟨[], 0⟩ (Node.elem tag attrs kids).flatten).1 :=
+  single_eq_generic_run_full s ic ns vs tag attrs kids hok
 
 end Genshi.Path
